@@ -1137,13 +1137,13 @@ def check_lambda_frames(col, rule: str, repo: Repo, m):
         if loops:
             lp = loops[0]
             it = lp.iter
+            # (the zipped pair is read by position - E-NORM N14: element 0 the call's argument, element 1 the lambda's parameter)
             ok = isinstance(it, ast.Call) and call_name(it) == "zip" and [src(a) for a in it.args] == ["call_node.args", "call_node.func.args.args"] \
-                and isinstance(lp.target, ast.Tuple) and len(lp.target.elts) == 2 \
-                and [src(a) for a in c.args] == [f"{src(lp.target.elts[1])}.arg", src(lp.target.elts[0])]
+                and isinstance(lp.target, ast.Name) and [src(a) for a in c.args] == [f"{lp.target.id}[1].arg", f"{lp.target.id}[0]"]
         col.add(rule, f.short, "parameter-k-bound-to-argument-k", ok,
                 "bindings must pair call arguments and lambda parameters by position: define_name(<param>.arg, <argument>) over zip(call.args, lambda.args.args)",
                 f"{f.module.rel}:{c.lineno}")
-        uses = [n for n in ast.walk(f.node) if isinstance(n, ast.Attribute) and n.attr == "arg" and isinstance(n.value, ast.Name)]
+        uses = [n for n in ast.walk(f.node) if isinstance(n, ast.Attribute) and n.attr == "arg" and isinstance(n.value, (ast.Name, ast.Subscript))]
         col.add(rule, f.short, "parameter-name-is-only-a-key", len(uses) == 1,
                 f"the parameter's name text must not flow anywhere but the binding key ({len(uses)} uses of .arg)", f.loc)
     other = [f"{f.short}:{call_name(c)}" for f in repo.all_functions() for c in walk_no_nested(f.node)
